@@ -463,10 +463,15 @@ def main(argv=None):
             bucket_report[key] = dict(count=b['count'], replay=path, detail=fl['detail'])
 
     # ---- required classes ------------------------------------------------
+    # (a case that fails returns early, so classes that are labelled late inside check() may be missing from a run that
+    # reports violations: then the violations are the outcome, not the missing labels)
     if a.examples is None:
         for lab in getattr(mod, 'REQUIRED', []):
             if total.classes.get(lab, 0) == 0:
-                harness_errors.append('generator regression: required class %r never produced' % lab)
+                if violations:
+                    emit('  note: required class %r not produced in this run (cases failed before reaching it)' % lab)
+                else:
+                    harness_errors.append('generator regression: required class %r never produced' % lab)
 
     # ---- evidence ---------------------------------------------------------
     wall = time.time() - t0
